@@ -64,7 +64,7 @@ example : -- non-vacuity: a heartbeat of "a" in a ring that also holds "b" write
 /-- SCOPE of the schedule theorems below (`state_edges`, `heartbeat_monotone`, `registered_once`, `world_entry_evolution`,
 `loop_entry_evolution`): full Lifecycler only (`hk`); the store ACCEPTS every write (`RunOK`/`LGood` demand `fault = .none`
 — with a rejected commit the table is NOT kept, see `rejected_commit_breaks_table_witness`; faults are C09's subject);
-a claim is issued by an instance whose own entry is in the ring (otherwise see `claim_without_own_entry_witness`); and
+a claim takes somebody ELSE's tokens; and
 they compare two CONSECUTIVE versions that both contain the entry: the environment may delete the entry, after which
 the chain starts afresh (new registration time, whatever state the lifecycler remembers) — the statements hold per
 maximal interval of presence.
@@ -134,7 +134,7 @@ example : -- non-vacuity: start, join, heartbeat, leave is a valid schedule that
 frame), started from a world in which no process has run yet, every step leaves the published entry of every
 full Lifecycler on a legal state edge, with its registration time, and with a heartbeat that did not go back.
 (`WRunOK`: the acting lifecycler's action is valid for it — store accepts the write, clock monotone, claims made
-by a registered instance from somebody else. No assumption on the OTHER lifecyclers: that they are harmless is
+from somebody else. No assumption on the OTHER lifecyclers: that they are harmless is
 `other_lifecycler_is_environment`.) -/
 theorem world_entry_evolution (w0 : World) (hwf : WF (w0.store.getD [])) (hd : Distinct w0)
     (hfresh : ∀ (i : Nat) (nd : Node), w0.nodes[i]? = some nd → nd.l = {})
@@ -160,8 +160,7 @@ theorem loop_refines_world (unreg : Nat → Bool) (s : LSys) (as : List LAct) :
     (LRunGood unreg s as → WRunOK s.w (lflatten unreg s as)) :=
   ⟨PfC08.lrun_w unreg as s, PfC08.lrunGood_flatten unreg as s⟩
 
-/-- Hence, for EVERY schedule of loop iterations of n lifecyclers and foreign writers (clock monotone, claims asked of a
-registered instance, foreign writers respecting the frame), started before any process has run: each iteration leaves
+/-- Hence, for EVERY schedule of loop iterations of n lifecyclers and foreign writers (clock monotone, claims of somebody else's tokens, foreign writers respecting the frame), started before any process has run: each iteration leaves
 the published entry of every full Lifecycler on a legal state edge, with its registration time and a heartbeat that
 did not go back (state_edges, registered_once, heartbeat_monotone lifted to the loops). -/
 theorem loop_entry_evolution (unreg : Nat → Bool) (s0 : LSys) (hwf : WF (s0.w.store.getD [])) (hd : Distinct s0.w)
@@ -333,15 +332,16 @@ theorem rejected_commit_breaks_table_witness :
     r2.out = .write [{ id := "a", ts := 3, state := .LEAVING }] ∧ allowed .PENDING .LEAVING = false := by
   decide
 
-/-- WITNESS for the hypothesis "a claim is issued by a registered instance": `ClaimTokensFor` of a JOINING lifecycler
-(registered at 5) whose own entry is missing works on Go's zero value: it publishes an entry in state ACTIVE with empty
-address and zone and registration time 0, and nothing refreshes the registration time afterwards (the entry exists). -/
-theorem claim_without_own_entry_witness :
+/-- `ClaimTokensFor` of a lifecycler whose own entry is missing from the ring (fixed in /repo <commit>; no hypothesis about
+it is needed any more in the schedule theorems): the entry is first added back with the remembered state, tokens, address
+and zone and registered NOW, then the claim is applied to it. (Before the fix `Desc.ClaimTokens` edited Go's zero value:
+the same input published `{a, addr "", zone "", ACTIVE, tokens [5], regTs 0}` — former `claim_without_own_entry_witness`.) -/
+theorem claim_without_own_entry_reregisters :
     let c : Cfg := { id := "a", addr := "h:1", zone := "z", numTokens := 1 }
     let l : Local := { started := true, state := .JOINING, regTs := 5 }
     let d : Desc := [{ id := "old", state := .LEAVING, tokens := [5] }]
     (step c l .absent (some d) (.claim "old") 9 (fun _ _ => []) .none).out =
-      .write [{ id := "a", addr := "", zone := "", ts := 9, state := .ACTIVE, tokens := [5], regTs := 0 },
+      .write [{ id := "a", addr := "h:1", zone := "z", ts := 9, state := .JOINING, tokens := [5], regTs := 9 },
               { id := "old", state := .LEAVING, tokens := [] }] := by
   decide
 
@@ -387,11 +387,12 @@ theorem activation_tokens (c : Cfg) (l : Local) (file : File) (din : Option Desc
       (∀ t ∈ b.tokens, t ∈ tokensOf (din.getD []) c.id ∨ ∀ i ∈ din.getD [], t ∉ i.tokens) :=
   PfC08.lc_join_tokens hk hs hp hg hf hnd hle
 
-/-- `verifyTokens` finding the ring's tokens different from the remembered ones (token conflict resolution, a lost ring):
+/-- `verifyTokens` finding the own entry in the ring with tokens different from the remembered ones (token conflict
+resolution; a MISSING entry is re-registered with the remembered tokens instead, `PC09.reregisters_fresh_on_every_path`):
 the ring's tokens of the own entry are kept, topped up to exactly `numTokens` strictly sorted tokens with tokens that are
 in NO instance's list, published in the remembered state and remembered; the observe timer is re-armed (answer `no`). -/
 theorem verify_regenerates_full_tokens (c : Cfg) (l : Local) (file : File) (din : Option Desc) (now : Int) (gen : Gen)
-    (hk : c.kind = .LC) (hs : l.started = true) (hg : GenOK gen)
+    (hk : c.kind = .LC) (hs : l.started = true) (hg : GenOK gen) (e0 : Inst) (hpres : Desc.get? (din.getD []) c.id = some e0)
     (hne : sortNat (tokensOf (din.getD []) c.id) ≠ sortNat l.tokens)
     (hnd : (tokensOf (din.getD []) c.id).Nodup) (hle : (tokensOf (din.getD []) c.id).length ≤ c.numTokens) :
     ∃ d' b, (step c l file din .verify now gen .none).out = .write d' ∧ Desc.get? d' c.id = some b ∧
@@ -400,7 +401,7 @@ theorem verify_regenerates_full_tokens (c : Cfg) (l : Local) (file : File) (din 
       b.tokens.length = c.numTokens ∧ b.tokens.Pairwise (· < ·) ∧
       (∀ t ∈ tokensOf (din.getD []) c.id, t ∈ b.tokens) ∧
       (∀ t ∈ b.tokens, t ∈ tokensOf (din.getD []) c.id ∨ ∀ i ∈ din.getD [], t ∉ i.tokens) :=
-  PfC08.lc_verify_tokens hk hs hg hne hnd hle
+  PfC08.lc_verify_tokens hk hs hg hpres hne hnd hle
 
 /-- Every write through `updateConsul` — heartbeat, `changeState` (in particular the JOINING→ACTIVE activation at the end of
 the observe period) and the read-only toggle — republishes the tokens the ring records for the own entry, whatever the
